@@ -8,7 +8,7 @@ import numpy as np
 from .. import contracts, gen, ref
 from ..core import FAILED
 
-DECIDING = ["contract:partial_transpose", "O2:involution", "O2:all=transpose", "O2:complement", "contract:realignment",
+DECIDING = ["O1:tiny-entries", "contract:partial_transpose", "O2:involution", "O2:all=transpose", "O2:complement", "contract:realignment",
             "O3:realign-product", "O3:frobenius", "O4:cvxpy-value", "H1:repeat-call", "O1:many-subsystems", "O1:single-number-dim"]
 RULE = ("cases = square (dims 1..4, n<=5) and rectangular (dims 2..4, n<=3) operators x every subset S as list/array/int x dtype, "
         "unique-id entries; realignment on square and rectangular bipartite blocks with every dim calling form; a signature is "
@@ -43,6 +43,8 @@ def cases(tier):
         out.append(("repeat", r))
     for r in range(48 if tier == "quick" else 4000):
         out.append(("many", r))
+    for r in range(48 if tier == "quick" else 6000):
+        out.append(("tiny", r))
     if tier == "thorough":
         out.append(("suite", 0))
     return out
@@ -155,6 +157,34 @@ def _run_rect(ctx, spec, rng):
         x = gen.unique_ids((int(np.prod(dr)), int(np.prod(dc))), "ifc"[int(rng.integers(0, 3))])
         dimarg = [list(dr), list(dc)] if rng.random() < 0.6 else np.array([dr, dc])
         _common(ctx, rng, x, s, dr, dc, dimarg, n)
+
+
+def _run_tiny(ctx, spec, rng):
+    """Entries of absolute size 1e-9 .. 1e-13 (overall, or everywhere off the diagonal): exchanging indices moves them like any other entry."""
+    from toqito.channels import partial_transpose, realignment
+
+    from .C01 import tiny_operand
+
+    r = spec[1]
+    n = 2 + r % 2
+    d = gen.dims(rng, n, 1 if r % 5 else 2, 3, max_total=36)
+    big = int(np.prod(d))
+    cls, x = tiny_operand(rng, big, big, r)
+    subs = [list(c) for k in range(1, n + 1) for c in itertools.combinations(range(n), k)]
+    s = subs[int(rng.integers(0, len(subs)))]
+    res = ctx.call(partial_transpose, x.copy(), list(s), list(d))
+    if res is not FAILED:
+        want = ref.partial_transpose(x, s, d, d)
+        ctx.check("O1:tiny-entries", np.shape(res) == want.shape and np.array_equal(res, want), sig=("pt", cls, n, len(s), x.dtype.kind), nt=True,
+                  mech=f"partial_transpose:tiny-entries-not-moved[{cls}]", detail={"d": d, "sys": s, "x": x, "got": res})
+    if n == 2 and min(d) >= 2:
+        a, b = d
+        res = ctx.call(realignment, x.copy(), [a, b])
+        if res is not FAILED:
+            want = x.reshape(a, b, a, b).transpose(0, 2, 1, 3).reshape(a * a, b * b)
+            ctx.check("O1:tiny-entries", np.shape(res) == want.shape and np.array_equal(res, want), sig=("realign", cls, x.dtype.kind), nt=True,
+                      mech=f"realignment:tiny-entries-not-moved[{cls}]", detail={"d": d, "x": x, "got": res})
+    ctx.sample("O1:tiny-entries", {"class": cls, "dims": d, "sys": s})
 
 
 def _run_realign(ctx, spec, rng):
